@@ -54,24 +54,24 @@ Proof. vm_compute. split; reflexivity. Qed.
 Print Assumptions C11_untracked_other_file.
 
 (* ---- structural facts extracted from the source by T1: order of the steps in the code ---- *)
-From BV Require Import Gen.Tables Proofs.StructureFacts.
+From BV Require Import Gen.Tables.
 Local Open Scope N_scope.
-Theorem C11_repo_order_vcs_assert_not_dirty :
-  ORDER_VCS_ASSERT_NOT_DIRTY = [
-  [118;99;115;95;97;112;105;46;115;116;97;116;117;115] (* vcs_api.status *);
-  [115;121;115;46;101;120;105;116] (* sys.exit *);
-  [115;121;115;46;101;120;105;116] (* sys.exit *)
-  ].
-Proof. exact repo_order_vcs_assert_not_dirty. Qed.
-Print Assumptions C11_repo_order_vcs_assert_not_dirty.
 
-Theorem C11_repo_order_cli__update :
-  ORDER_CLI__UPDATE = [
-  [118;99;115;46;103;101;116;95;118;99;115;95;97;112;105] (* vcs.get_vcs_api *);
-  [118;99;115;46;97;115;115;101;114;116;95;110;111;116;95;100;105;114;116;121] (* vcs.assert_not_dirty *);
-  [118;50;114;101;119;114;105;116;101;46;114;101;119;114;105;116;101;95;102;105;108;101;115] (* v2rewrite.rewrite_files *);
-  [118;49;114;101;119;114;105;116;101;46;114;101;119;114;105;116;101;95;102;105;108;101;115] (* v1rewrite.rewrite_files *);
-  [118;99;115;46;99;111;109;109;105;116] (* vcs.commit *)
-  ].
-Proof. exact repo_order_cli__update. Qed.
-Print Assumptions C11_repo_order_cli__update.
+(* ---- call orders extracted from the source by T1: the steps this property rests on ---- *)
+From Coq Require Import Strings.String.
+From BV Require Import Lib.StrLit Gen.Tables Proofs.OrderC11.
+Local Open Scope string_scope.
+
+(* vcs.assert_not_dirty reads the status once and then decides *)
+Theorem C11_repo_order_assert_not_dirty :
+  restrict (lits ["vcs_api.status"; "sys.exit"]) ORDER_VCS_ASSERT_NOT_DIRTY
+  = lits ["vcs_api.status"; "sys.exit"; "sys.exit"].
+Proof. exact c11_order_assert_not_dirty. Qed.
+Print Assumptions C11_repo_order_assert_not_dirty.
+
+(* in cli._update the dirty check precedes every write *)
+Theorem C11_repo_order__update :
+  restrict (lits ["vcs.assert_not_dirty"; "v2rewrite.rewrite_files"; "v1rewrite.rewrite_files"; "vcs.commit"]) ORDER_CLI__UPDATE
+  = lits ["vcs.assert_not_dirty"; "v2rewrite.rewrite_files"; "v1rewrite.rewrite_files"; "vcs.commit"].
+Proof. exact c11_order__update. Qed.
+Print Assumptions C11_repo_order__update.
